@@ -65,7 +65,15 @@ TypedOther ==
       [prop |-> "ptr", body |-> Block(<<LetT("p", "TSource", NullE(0)), If(C, Asg("p", B), NoneS(0)), Ret(Lv("p"))>>)],
       [prop |-> "uval", body |-> Block(<<LetT("u", "uint", IntL(2)), Ret(Bin("*", Lv("u"), U))>>)],
       [prop |-> "flag", body |-> Block(<<LetT("f", "bool", Bool(FALSE)), If(Bin(">", N, IntL(0)), Asg("f", C), NoneS(0)), SExpr(Lv("f"))>>)]}
-StmtProgs == {[prop |-> "ival", body |-> b] : b \in StmtBodies \cup SwScope \cup TypedInt} \cup TypedOther
+\* declarator lists (`let a = x, b = a + 1`): a later initialiser sees the earlier variables of the same statement, also when the name means
+\* something else outside it (an outer variable, a property of the bound object)
+DeclListB == {Block(<<Let("s", IntL(100)), Block(<<Let("s", N), LetJ("t", Bin("+", Lv("s"), IntL(1))), SExpr(Lv("t"))>>)>>),
+              Block(<<Let("u", N), LetJ("v", Bin("*", Lv("u"), IntL(2))), LetJ("w", Bin("+", Lv("v"), Lv("u"))), Ret(Lv("w"))>>),
+              Block(<<Let("ival", M), LetJ("z", Bin("+", Lv("ival"), IntL(1))), Ret(Lv("z"))>>),
+              Block(<<Const("c2", N), ConstJ("d2", Bin("-", Lv("c2"), M)), SExpr(Lv("d2"))>>),
+              Block(<<Let("s", M), If(C, Block(<<Let("s", N), LetJ("t", Bin("*", Lv("s"), IntL(3))), Ret(Lv("t"))>>), NoneS(0)), SExpr(Lv("s"))>>),
+              Block(<<Let("jval", IntL(7)), LetJ("k", Lv("jval")), LetJ("jv2", Bin("+", Lv("k"), Lv("jval"))), SExpr(Lv("jv2"))>>)}
+StmtProgs == {[prop |-> "ival", body |-> b] : b \in StmtBodies \cup SwScope \cup TypedInt \cup DeclListB} \cup TypedOther
 
 
 VARIABLE prog
